@@ -1,15 +1,15 @@
 #!/bin/bash
-# tools/benign_batch.sh PID [SRC_ROOT]  - validate benign1..3 of one property, print one line each
-pid=$1; src=${2:-/tmp/ben-$pid}
+# tools/benign_batch.sh PID [SRC_ROOT] [TAG]  - validate benign1..3 of one property, print one line each
+pid=$1; src=${2:-/tmp/ben-$pid}; tag=${3:-}
 for k in 1 2 3; do
-  [ -f $src/benign$k/patch.diff ] || { echo "$pid-benign$k: no patch"; continue; }
-  python3 /verif/tools/validate_benign.py $src/benign$k $pid $pid-benign$k 2>&1 | python3 -c "
+  [ -f $src/benign$k/patch.diff ] || { echo "$pid-${tag}benign$k: no patch"; continue; }
+  python3 /verif/tools/validate_benign.py $src/benign$k $pid $pid-${tag}benign$k 2>&1 | python3 -c "
 import sys,json
 t=sys.stdin.read()
 try:
     d=json.loads(t[t.index('{'):])
     c=d['checks']
     print(d['name'],'baseline',d['baseline_ok'],'holds',d['holds_clean'],d['holds_patched'],'differs',d['differs_clean'],d['differs_patched'],'QUIET' if d['quiet'] else 'ALARM', {k:(v['exit'],v['signatures'][:4]) for k,v in c.items() if not v['quiet']})
-except Exception as e: print('$pid-benign$k ERR',t[-400:])
+except Exception as e: print('$pid-${tag}benign$k ERR',t[-400:])
 "
 done
